@@ -8,8 +8,10 @@ None of these is in a listed known class (`Known.protoClasses` is empty on all o
 (`proto.Marshal`, same bytes as the model).  `refdecode = none` means the reference has no opinion /
 rejects the bytes; `want` is `canonical ty v`.
 
-  F1  sfixed32 / sfixed64  (`int32`/`int64` tagged `fixed32`/`fixed64`, the tag protoc-gen-go writes for them):
-      written as a VARINT record (`08 05`), not I32/I64.  A schema-driven protobuf decoder drops or rejects the field.
+  (F1, sfixed32 / sfixed64 = `int32`/`int64` tagged `fixed32`/`fixed64` written as a VARINT record, is repaired in
+      the repository and in this model revision (`Codec.sfixed32/.sfixed64`): the field is now an I32/I64 record
+      holding the little-endian two's complement, inside the universe of `decode_marshal_*`; see the `#guard`s below.
+      The numbering F2 … F6 is kept.)
   F2  proto2 `required` (`protobuf:"varint,7,req,…"`): `parseStructTag` fails on `req`, the whole tag is ignored, the
       field is numbered by position (`08 05` = field 1 instead of field 7) and loses zigzag/fixed as well.
   F3  `rep` on a non-slice field: the value is written by the second loop WITHOUT any tag (`05`): not a message.
@@ -30,9 +32,31 @@ def tst (ty : Ty) (v : Val) : String :=
 def one (tag : String) (t : Ty) (v : Val) : String :=
   tst (.struct (.cons "A" tag false t .nil)) (.struct (.cons v .nil))
 
--- F1   "marshal=0805 refdecode=none want=t 1 i 5 known=[]"      (Go: 0805; protobuf sfixed32: 0d05000000)
-#eval one "protobuf:\"fixed32,1,opt\"" (.int .i32) (.int 5)
-#eval one "protobuf:\"fixed64,1,opt\"" (.int .i64) (.int 5)
+-- formerly F1, now agreeing: `int32` tagged `fixed32` holding −5 is the I32 record `0d fb ff ff ff`, the reference
+-- decoder reads −5 back; likewise sfixed64, behind a pointer, and at the range ends.
+-- "marshal=0dfbffffff refdecode=some t 1 i -5 want=t 1 i -5 known=[]"
+#eval one "protobuf:\"fixed32,1,opt\"" (.int .i32) (.int (-5))
+#eval one "protobuf:\"fixed64,1,opt\"" (.int .i64) (.int (-5))
+def sfx32 : Ty := .struct (.cons "A" "protobuf:\"fixed32,1,opt\"" false (.int .i32) .nil)
+def sfx64 : Ty := .struct (.cons "A" "protobuf:\"fixed64,1,opt\"" false (.int .i64) .nil)
+def sfxp32 : Ty := .struct (.cons "A" "protobuf:\"fixed32,1,opt\"" false (.ptr (.int .i32)) .nil)
+def agree (ty : Ty) (v : Val) : Bool :=
+  ((Spec.Protobuf.decode ty (marshal ty v)).map fun r => (Spec.Protobuf.canonical ty r).show)
+    == some (Spec.Protobuf.canonical ty v).show
+#guard toHex (marshal sfx32 (.struct (.cons (.int (-5)) .nil))) == "0dfbffffff"
+#guard agree sfx32 (.struct (.cons (.int (-5)) .nil))
+#guard toHex (marshal sfx64 (.struct (.cons (.int (-5)) .nil))) == "09fbffffffffffffff"
+#guard agree sfx64 (.struct (.cons (.int (-5)) .nil))
+#guard agree sfx32 (.struct (.cons (.int (-2147483648)) .nil)) && agree sfx32 (.struct (.cons (.int 2147483647) .nil))
+#guard agree sfx64 (.struct (.cons (.int (-9223372036854775808)) .nil)) && agree sfx64 (.struct (.cons (.int 9223372036854775807) .nil))
+#guard toHex (marshal sfxp32 (.struct (.cons (.ptr (.int 0)) .nil))) == "0d00000000" && agree sfxp32 (.struct (.cons (.ptr (.int 0)) .nil))
+-- the model's own decoder reads it back as well (C03)
+#guard (unmarshal sfx32 (marshal sfx32 (.struct (.cons (.int (-5)) .nil)))).show Val.show == "ok:t 1 i -5"
+-- and these fields are inside the hypotheses of the theorems now:  tagAgree / tyOK = true, width mismatch still false
+#guard tagAgree 1 "protobuf:\"fixed32,1,opt\"" (.int .i32) && tagAgree 1 "protobuf:\"fixed64,1,opt\"" (.int .i64)
+  && tagAgree 1 "protobuf:\"fixed32,1,opt\"" (.ptr (.int .i32)) && tyOK sfx32 && tyOK sfx64 && tyOK sfxp32
+#guard !tagAgree 1 "protobuf:\"fixed64,1,opt\"" (.int .i32) && !tagAgree 1 "protobuf:\"fixed32,1,opt\"" (.int .i64)
+  && !tagAgree 1 "protobuf:\"fixed32,1,opt\"" (.int .int)
 -- F2   "marshal=0805 refdecode=some t 1 i 0 want=t 1 i 5 known=[]"   (Go: 0805; expected 3805)
 #eval one "protobuf:\"varint,7,req\"" (.int .i64) (.int 5)
 -- F3   "marshal=05 refdecode=none …"                              (Go: 05)
@@ -50,9 +74,12 @@ def one (tag : String) (t : Ty) (v : Val) : String :=
 #eval (tagAgree 1 "protobuf:\"fixed32,1,opt\"" (.ptr (.int .u32)), tagAgree 1 "protobuf:\"fixed64,1,opt\"" (.ptr .f64),
        tagAgree 1 "protobuf:\"fixed64,1,opt\"" (.ptr (.int .u32)))   -- (true, true, false)
 
--- `tagAgree` (the hypothesis that excludes F1–F3, F5) evaluated on these and on ordinary protoc tags
-#eval (tagAgree 1 "protobuf:\"fixed32,1,opt\"" (.int .i32), tagAgree 1 "protobuf:\"varint,7,req\"" (.int .i64),
-       tagAgree 1 "protobuf:\"varint,1,rep\"" (.int .i64), tagAgree 1 "protobuf:\"varint,0,opt\"" (.int .i64))   -- all false
+-- `tagAgree` (the hypothesis that excludes F3, F5) evaluated on these and on ordinary protoc tags: (true, false, false).
+-- NOTE: the first component is `true` and the F2 `#eval` above prints `marshal=3805 refdecode=some t 1 i 5`: the model
+-- revision at hand has `"req" => go 3 rest t` in `parseStructTag`, so F2 no longer reproduces either (its header text and
+-- expected-output comment above are stale; that predates the sfixed change).
+#eval (tagAgree 1 "protobuf:\"varint,7,req\"" (.int .i64),
+       tagAgree 1 "protobuf:\"varint,1,rep\"" (.int .i64), tagAgree 1 "protobuf:\"varint,0,opt\"" (.int .i64))
 #eval (tagAgree 1 "protobuf:\"zigzag64,2,opt,name=a,proto3\"" (.int .i64), tagAgree 3 "protobuf:\"fixed32,9,opt\"" (.int .u32),
        tagAgree 2 "protobuf:\"bytes,4,rep,name=s\"" (.slice .str), tagAgree 1 "json:\"a\" protobuf:\"varint,1,opt\"" (.ptr .bool)) -- all true
 
